@@ -511,7 +511,15 @@ class Path:
 
 class LoopSpec:
     def __init__(self, invariant, modifies=(), havoc=None, variant=None, skip_names=()):
-        self.invariant = invariant  # (I, env, k) -> z3 Bool / list
+        def guarded(I, env, k, seq=None, _inv=invariant):
+            # an invariant speaks about the loop's variables by name: when the code under it was rewritten (a local renamed, a
+            # collection of another shape) the anchor is lost - undecided, not an engine error
+            try:
+                return _inv(I, env, k, seq)
+            except (KeyError, AttributeError, TypeError) as e:
+                raise OutOfSubset(f"anchor lost: the loop invariant no longer fits the loop ({type(e).__name__}: {e})")
+
+        self.invariant = guarded  # (I, env, k, seq) -> z3 Bool / list
         self.modifies = tuple(modifies)
         self.havoc = havoc or {}
         self.variant = variant
